@@ -380,7 +380,7 @@ def status_known_zero(f):
     return IN
 
 
-def vg2(P, C):
+def vg2(P, C, exact=False):
     C.rule("VG-2", "read_fits_core: every feasible normal exit is dominated by throwing guards, executed for every dimension, for "
            "nknots >= 2*order+2, naxes == nknots-order-1, knots finite and non-decreasing", floor=4)
     f = [g for g in P.fns("read_fits_core") if g.unit == "driver"]
@@ -402,6 +402,10 @@ def vg2(P, C):
     if not exits:
         raise core.AnalysisBroken("read_fits_core: no feasible normal exit found")
     C.extra["reader_feasible_normal_exits"] = len(exits)
+    strict_sorted = False
+    if exact:
+        C.rule("VG-2x", "the reader's validations are not stricter than well-formedness where the statement says what is well-formed: knots are "
+               "non-decreasing, so equal neighbours must be accepted", floor=1)
     for (oid, hazard, leaves, depth) in READ_OBLIGATIONS:
         g = None
         if leaves is not None:
@@ -413,7 +417,10 @@ def vg2(P, C):
                     if isinstance(lf[0], Poly):
                         d, rel = lf
                         txt = repr(d)
-                        if rel == "<0" and sorted(d.t.values()) == [-1, 1]:
+                        if rel == "<0" and d.t.get((), 0) == -1:
+                            # `a <= b` is normalised as a - b - 1 < 0 (integer form); for the knot values it is the non-strict comparison
+                            d, rel = d + Poly.const(1), "<=0"
+                        if rel in ("<0", "<=0") and sorted(d.t.values()) == [-1, 1]:
                             atoms = sorted(d.atoms())
                             if any(len(a) != 1 for a in d.t):
                                 continue
@@ -424,6 +431,7 @@ def vg2(P, C):
                                 later, earlier = (pos_a, neg_a) if "- 1" in neg_a else (neg_a, pos_a)
                                 if (later == pos_a):
                                     g = cand
+                                    strict_sorted = (rel == "<0")
         ok = g is not None
         detail = "no throwing guard for: %s" % hazard
         where = f.where()
@@ -468,6 +476,12 @@ def vg2(P, C):
                     ok = False
                     detail += "; guard is conditional on %s" % f.render(f.nodes[inner_ifs[0]]["cond"])
         C.ob("VG-2", "read_fits_core", oid, ok, where, detail)
+        if exact and oid == "knots-sorted" and g is not None:
+            # the other direction (C06): the reader must not refuse what is well-formed and what the writer writes — repeated knots are legal
+            # (clamped end knots, a doubled interior knot), so the rejection has to be of a strictly smaller successor only
+            C.ob("VG-2x", "read_fits_core", "repeated-knots-accepted", strict_sorted, where,
+                 "the order test rejects knots[j] < knots[j-1] only: equal neighbours pass" if strict_sorted else
+                 "the order test also rejects knots[j] == knots[j-1]: a table with a repeated knot, which the writer writes and the fitter accepts, cannot be read back")
 
 
 def vg2c(P, C):
